@@ -188,8 +188,10 @@ func (x *Exec) execStmtWithPoints(s ast.Stmt, st *State, env *Env) Flow {
 		}
 		f := x.execStmt(s, st, env)
 		if f.normal != nil {
+			// names in an `after` point are resolved at the END of the statement, so that variables the statement
+			// itself declares (f, err := …) are the ones meant
 			for _, a := range x.anchors[s] {
-				x.runPoints("after", a, f.normal, s.Pos())
+				x.runPoints("after", a, f.normal, s.End())
 			}
 		}
 		return f
